@@ -2,8 +2,12 @@
    ExtOp.to_custom_op, hugr/base.py Hugr.resolve_extensions, ext.py registry lookups), of the
    serial form of types and custom operations, and of the model export (`to_model`) naming.
    Mirrors the code after the repairs of D15 (Opaque.resolve resolves its arguments), D16
-   (Opaque.to_model writes the extension prefix) and D17 (ExtOp.to_custom_op writes the
-   definition's description).  No proofs in this file. *)
+   (Opaque.to_model writes the extension prefix) and D17 (ExtOp.to_custom_op writes a description
+   the property admits).  The property leaves one choice to the implementation: "an operation's
+   free-text description MAY be replaced by its definition's".  The model does not bake that choice
+   in: resolution takes it as an oracle ([descr_choice], one bit per opaque operation, read off the
+   implementation's behaviour by the harness), and every theorem holds for every oracle.
+   No proofs in this file. *)
 From Coq Require Import NArith List Bool Arith.
 Import ListNotations.
 From HV Require Import lib.Harness model.Types.
@@ -153,8 +157,11 @@ with arg_to_model (a : tyarg) : option term :=
 (* ---- operations ---- *)
 (* ops.Custom *)
 Record custom := { c_ext : name; c_name : name; c_sig : functype; c_descr : name; c_args : list tyarg }.
-(* ops.ExtOp as produced by resolution: the signature is always cached *)
-Record extop := { x_def : opdef; x_sig : functype; x_args : list tyarg }.
+(* ops.ExtOp as produced by resolution: the signature is always cached.  [x_descr] is the free-text
+   description the operation is serialised with (what ExtOp.to_custom_op / ExtOp._to_serial write):
+   the definition's for an operation instantiated from its definition; after resolution the one the
+   opaque operation was loaded with or the definition's, whichever the implementation chose *)
+Record extop := { x_def : opdef; x_sig : functype; x_args : list tyarg; x_descr : name }.
 Inductive op :=
 | OCustom (c : custom)
 | OExt (x : extop)
@@ -164,23 +171,35 @@ Definition resolve_ft (reg : registry) (f : functype) : functype :=
   {| ft_in := map (resolve_ty reg) (ft_in f); ft_out := map (resolve_ty reg) (ft_out f);
      ft_reqs := ft_reqs f |}.
 
+(* The implementation's choice for the description of a resolved operation: [true] = it keeps the
+   description the opaque operation was loaded with, [false] = it takes the definition's.  Both are
+   admissible for every operation ("may be replaced"), so every function of this type is an admissible
+   oracle; nothing else about the result is left open. *)
+Definition descr_choice := custom -> bool.
+Definition keep_loaded : descr_choice := fun _ => true.        (* never rewrites the description *)
+Definition take_definitions : descr_choice := fun _ => false.  (* always writes the definition's *)
+Definition resolved_descr (keep : descr_choice) (c : custom) (d : opdef) : name :=
+  if keep c then c_descr c else od_descr d.
+
 (* Custom.resolve *)
-Definition resolve_custom (reg : registry) (c : custom) : op :=
+Definition resolve_custom (reg : registry) (keep : descr_choice) (c : custom) : op :=
   match lookup_op reg (c_ext c) (c_name c) with
   | None => OCustom c
   | Some d => OExt {| x_def := d; x_sig := resolve_ft reg (c_sig c);
-                      x_args := map (resolve_arg reg) (c_args c) |}
+                      x_args := map (resolve_arg reg) (c_args c);
+                      x_descr := resolved_descr keep c d |}
   end.
 (* the loop body of Hugr.resolve_extensions: only Custom operations are touched *)
-Definition resolve_op (reg : registry) (o : op) : op :=
-  match o with OCustom c => resolve_custom reg c | _ => o end.
+Definition resolve_op (reg : registry) (keep : descr_choice) (o : op) : op :=
+  match o with OCustom c => resolve_custom reg keep c | _ => o end.
 (* Hugr.resolve_extensions: node operations in node order; hierarchy and links are not touched *)
-Definition resolve_hugr (reg : registry) (h : list op) : list op := map (resolve_op reg) h.
+Definition resolve_hugr (reg : registry) (keep : descr_choice) (h : list op) : list op :=
+  map (resolve_op reg keep) h.
 
-(* ExtOp.to_custom_op (after D17) *)
+(* ExtOp.to_custom_op (after D17): the description the operation carries *)
 Definition to_custom_op (x : extop) : custom :=
   {| c_ext := od_ext (x_def x); c_name := od_name (x_def x); c_sig := x_sig x;
-     c_descr := od_descr (x_def x); c_args := x_args x |}.
+     c_descr := x_descr x; c_args := x_args x |}.
 
 Definition outer_signature (o : op) : option functype :=
   match o with OCustom c => Some (c_sig c) | OExt x => Some (x_sig x) | OOther _ => None end.
